@@ -84,6 +84,10 @@ static CO_ERR COTPdoEventWrite(struct CO_OBJ_T *obj, struct CO_NODE_T *node, voi
     /* identify the corresponding TPDO */
     num  = CO_GET_IDX(obj->Key);
     num &= 0x1FF;
+    if (num >= CO_TPDO_N) {
+        /* record behind the available TPDOs: plain value */
+        return (CO_ERR_NONE);
+    }
     pdo  = &node->TPdo[num];
 
     /* clear already running timer (event and inhibit) */
